@@ -51,6 +51,8 @@ type fnCtx struct {
 	modWhole map[string]bool
 	coveredLoop map[int]bool
 	coveredRet bool
+	coveredLoopN map[int]int
+	labelHit map[string]bool
 }
 
 type modItem struct {
@@ -112,7 +114,78 @@ func (E *Engine) VerifyFunc(key string, props []string) (err error) {
 	if c.paths == 0 {
 		return fmt.Errorf("%s: no complete path", c.short)
 	}
+	E.labelVacuity(c)
 	return nil
+}
+
+// markLabels records which call-log labels occur on some explored path of the current function.
+func (E *Engine) markLabels(st *State) {
+	c := E.cur
+	if c == nil || E.dry > 0 {
+		return
+	}
+	if c.labelHit == nil {
+		c.labelHit = map[string]bool{}
+	}
+	for _, e := range st.log {
+		c.labelHit[e.Label] = true
+	}
+}
+
+// labelVacuity: a clause that inspects the arguments / results / state of calls labelled L
+// (arg, ret, atcall, lastret, ...) is vacuous if no path of the function ever logs L — typically
+// a label that does not match what the call site is actually logged as. Reported as a failed
+// obligation so that it cannot go unnoticed.
+func (E *Engine) labelVacuity(c *fnCtx) {
+	if c.spec == nil {
+		return
+	}
+	strong := map[string]bool{"arg": true, "ret": true, "atcall": true, "aftercall": true, "lastret": true, "lastarg": true,
+		"iter_arg": true, "iter_ret": true, "iter_atcall": true}
+	refs := map[string]string{}
+	var walk func(e *CExpr, text string)
+	walk = func(e *CExpr, text string) {
+		if e == nil {
+			return
+		}
+		if e.Op == "call" && len(e.Args) >= 2 && e.Args[0].Op == "ident" && strong[e.Args[0].Name] {
+			refs[e.Args[1].String()] = text
+		}
+		for _, a := range e.Args {
+			walk(a, text)
+		}
+	}
+	for _, cl := range c.spec.Ensures {
+		walk(cl.Expr, cl.Text)
+	}
+	for _, l := range c.spec.Loops {
+		for _, cl := range l.Body {
+			walk(cl.Expr, cl.Text)
+		}
+	}
+	var names []string
+	for l := range refs {
+		names = append(names, l)
+	}
+	sort.Strings(names)
+	for _, l := range names {
+		hit := false
+		for h := range c.labelHit {
+			if h == l || strings.HasSuffix(h, "."+l) || strings.HasSuffix(h, ")."+l) {
+				hit = true
+			}
+		}
+		if hit {
+			continue
+		}
+		ob := &Oblig{Name: fmt.Sprintf("%s/label-never-logged#%s", c.short, l), Kind: "vacuity", Func: c.key,
+			Goal: "some path logs a call labelled " + l + " (used in: " + refs[l] + ")", SMT: E.render(nil, "false", nil)}
+		for p := range c.props {
+			ob.Props = append(ob.Props, p)
+		}
+		sort.Strings(ob.Props)
+		E.Obligs = append(E.Obligs, ob)
+	}
 }
 
 func (E *Engine) newState() *State {
@@ -488,7 +561,11 @@ func (E *Engine) loopEnter(st *State, li *loopInfo, from *ssa.BasicBlock) bool {
 	}
 	st.loopLog[li.Ordinal] = len(st.log)
 	st.ghost["curloop"] = fmt.Sprint(li.Ordinal)
-	if !c.coveredLoop[li.Ordinal] {
+	if c.coveredLoopN == nil {
+		c.coveredLoopN = map[int]int{}
+	}
+	if c.coveredLoopN[li.Ordinal] < 4 {
+		c.coveredLoopN[li.Ordinal]++
 		c.coveredLoop[li.Ordinal] = true
 		E.cover(st, fmt.Sprintf("loop%d", li.Ordinal), "loop invariants are satisfiable at the loop head", E.blockPos(li.Header))
 	}
@@ -521,6 +598,7 @@ func (E *Engine) loopBack(st *State, li *loopInfo, from *ssa.BasicBlock) {
 	for _, f := range E.inferredInvs(st, li) {
 		E.oblige(st, "inv-preserve", site+".range", f, "range index bounds", E.blockPos(li.Header), nil)
 	}
+	E.markLabels(st)
 	if li.Spec != nil {
 		st.ghost["curloop"] = fmt.Sprint(li.Ordinal)
 		for i, cl := range li.Spec.Body {
@@ -1020,6 +1098,7 @@ func (E *Engine) doPanic(st *State, in *ssa.Panic) {
 	if E.dry > 0 {
 		return
 	}
+	E.markLabels(st)
 	if c.spec != nil && c.spec.Panics != nil {
 		ev := E.cenvFor(st, c, c.spec.Panics.Ctx)
 		ev.entryNames = true
